@@ -51,7 +51,7 @@ def run_impl(c, memo=None, rule=None, pred_cls=Pred):
     import cellpylib as cpl
     ca = make_ca(c)
     snapshot = ca.tobytes()
-    rule = rule or Rule(c["rule"], c.get("scale", 1))
+    rule = rule or Rule(c["rule"], c.get("scale", 1), clobber=bool(c.get("clobber")))
     pred = None
     if "T" in c:
         ts = c["T"]
